@@ -374,6 +374,22 @@ class PointsTo:
                         if isinstance(d, ast.Dict) and d.keys and all(k is not None and const_str(k) is not None for k in d.keys):
                             return [const_str(k) for k in d.keys]
                         return None
+                    if isinstance(table, ast.Call):
+                        # for key, value in gen(...) with gen a package generator whose every yield is a tuple display with a
+                        # string constant in that column (directly, or a loop variable over a table of constants inside it)
+                        tgs = [k[1] for k in self.res.kinds(table.func, fn) if k[0] == "func"]
+                        if len(tgs) == 1 and tgs[0].is_generator:
+                            G = tgs[0]
+                            ys = [y for y in own_nodes(G.node) if isinstance(y, (ast.Yield, ast.YieldFrom))]
+                            if ys and all(isinstance(y, ast.Yield) and isinstance(y.value, ast.Tuple) and len(y.value.elts) == len(par.target.elts) for y in ys):
+                                out = []
+                                for y in ys:
+                                    ks = self.const_keys(y.value.elts[col], G)
+                                    if ks is None:
+                                        return None
+                                    out += ks
+                                return sorted(set(out))
+                        return None
                     if isinstance(table, ast.Name):
                         tb = self.res.bindings(fn).get(table.id, [])
                         if len(tb) == 1 and tb[0][0] == "value":
